@@ -433,3 +433,10 @@ M("r3-benign-doc-helper", "C02", None, RTF,
 M("r3-benign-doc-helper-c15", "C15", None, RTF,
   "    def get_operation_as_str(self) -> str:\n        operation_str = print_ast(\n            self._get_node_without_mixin_directive(self.operation_definition)\n        )\n",
   "    def _definition_text(self, definition):\n        return print_ast(self._get_node_without_mixin_directive(definition))\n\n    def get_operation_as_str(self) -> str:\n        operation_str = self._definition_text(self.operation_definition)\n")
+
+# ----------------------------------------------------------------------- round-5 rules
+M("r5-inline-fragments-one-level", "C01", "C01.R11", RFF, "            inline_fragments.extend(\n                get_inline_fragments_from_selection_set(\n                    fragment_def.selection_set, fragments_definitions\n                )\n            )",
+  "            inline_fragments.extend(\n                s for s in fragment_def.selection_set.selections if isinstance(s, InlineFragmentNode)\n            )")
+M("r5-inline-fragments-spread-ignored", "C01", "C01.R11", RFF, "        elif isinstance(selection, FragmentSpreadNode):\n            fragment_def = fragments_definitions[selection.name.value]", "        elif isinstance(selection, FragmentSpreadNode) and False:\n            fragment_def = fragments_definitions[selection.name.value]")
+M("r5-visited-break", "C09", "C04.R9", ITF, "            if node not in visited:\n                visited.add(node)\n                result.append(node)\n\n                for neighbor in self._dependencies[node]:\n                    dfs(neighbor)",
+  "            visited.add(node)\n            result.append(node)\n            for neighbor in self._dependencies[node]:\n                if neighbor in visited:\n                    break\n                visited.add(neighbor)\n                dfs(neighbor)")
